@@ -274,11 +274,17 @@ Theorem parse_code_whole : forall is_letter is_udigit s e, parse_code is_letter 
 Proof.
   intros is_letter is_udigit s e H. unfold parse_code in H.
   destruct (lex is_letter is_udigit s) as [ts|] eqn:El; [|discriminate H].
+  destruct (open_comment ts) eqn:Eoc; [discriminate H|].
   destruct (parse_expr (2 * length ts + 2) 0 ts) as [[e0 rest]|] eqn:Ep; [|discriminate H].
   destruct (only_blank_eos rest) eqn:Eb; [|discriminate H].
   inversion H; subst. exists ts, rest. split; [reflexivity|]. split; [|exact Eb].
   apply (parse_yield _ _ _ _ _ Ep).
 Qed.
+
+(* an unterminated block comment (the lexer's fallback: '/' immediately followed by '*') is rejected *)
+Theorem open_comment_rejected : forall is_letter is_udigit s ts, lex is_letter is_udigit s = Some ts ->
+  open_comment ts = true -> parse_code is_letter is_udigit s = None.
+Proof. intros is_letter is_udigit s ts El Ho. unfold parse_code. rewrite El, Ho. reflexivity. Qed.
 
 Print Assumptions parse_yield.
 Print Assumptions parse_code_whole.
